@@ -481,8 +481,8 @@ theorem spec_eraseRange_inv {cap : Nat} {l : List α} (h : Inv1 lt cap l) (f la 
   simp [Spec.eraseRange]; omega
 
 /-- every operation keeps both sets strictly ascending (hence unique) and within capacity -/
-theorem step_inv (hw : StrictWeak lt) (h : Het α κ) (e : Elem α) (isSet : Bool) {cap : Nat} {s : St α} (hinv : Inv lt cap s)
-    (op : Op α κ) (hv : Spec.valid cap lt s op = true) : Inv lt cap (Spec.step isSet lt h e cap s op).1 := by
+theorem step_inv (hw : StrictWeak lt) (h : Het α κ) (isSet : Bool) {cap : Nat} {s : St α} (hinv : Inv lt cap s)
+    (op : Op α κ) (hv : Spec.valid cap lt s op = true) : Inv lt cap (Spec.step isSet lt h cap s op).1 := by
   obtain ⟨h1, h2⟩ := hinv
   cases op with
   | insert k => exact ⟨spec_insert_inv hw h1 k, h2⟩
@@ -510,15 +510,12 @@ theorem step_inv (hw : StrictWeak lt) (h : Het α κ) (e : Elem α) (isSet : Boo
   | lookup w k => exact ⟨h1, h2⟩
   | hlookup w k => exact ⟨h1, h2⟩
   | riter => exact ⟨h1, h2⟩
-  | eraseIf p => exact ⟨spec_eraseIf_inv h1 p, h2⟩
-  | cmp => exact ⟨h1, h2⟩
-  | sizes => exact ⟨h1, h2⟩
 
 /-- One operation of any of the three set kinds on a state satisfying the invariant: the model
     never errors and produces exactly the spec's new state and observable result. -/
-theorem step_refines (hw : StrictWeak lt) {h : Het α κ} (hh : HetOk lt h) (e : Elem α) (kind : Kind) {cap : Nat}
+theorem step_refines (hw : StrictWeak lt) {h : Het α κ} (hh : HetOk lt h) (kind : Kind) {cap : Nat}
     {s : St α} (hinv : Inv lt cap s) (op : Op α κ) (hv : Spec.valid cap lt s op = true) (hk : opOk kind op = true) :
-    step kind lt h e cap s op = .ok (Spec.step (kind == .ss) lt h e cap s op) := by
+    step kind lt h cap s op = .ok (Spec.step (kind == .ss) lt h cap s op) := by
   obtain ⟨h1, h2⟩ := hinv
   have hs := h1.1
   cases op with
@@ -552,21 +549,18 @@ theorem step_refines (hw : StrictWeak lt) {h : Het α κ} (hh : HetOk lt h) (e :
   | lookup w k => simp [step, Spec.step, lookup_eq hw hs k]
   | hlookup w k => simp [step, Spec.step, hlookup_eq hh hs k]
   | riter => simp [step, Spec.step, riter_eq]
-  | eraseIf p => simp [step, Spec.step, setEraseIf_eq]
-  | cmp => simp [step, Spec.step, relOps_eq]
-  | sizes => simp [step, Spec.step, sizes_eq]
 
 /-- MAIN THEOREM (refinement over histories).  From any state whose two sets are strictly
     ascending and within capacity, every history of insert/emplace, insert with hint, range insert, erase by
-    key/position/range, erase_if, clear, swap, extract, replace, all lookups (homogeneous and heterogeneous), reverse
-    iteration, the six relational operators and size/empty/full/max_size — of any length, for any capacity, key type and strict weak order, any consistent heterogeneous
+    key/position/range, clear, swap, extract, replace, all lookups (homogeneous and heterogeneous) and reverse
+    iteration — of any length, for any capacity, key type and strict weak order, any consistent heterogeneous
     comparison, for static_set and both flat_set backings — runs without a single out-of-vector access,
     precondition violation or exhausted loop bound, and its outputs (positions, inserted flags, `full` reports,
     erased counts, lookup answers, extracted contents) and final state equal those of the std::set specification. -/
-theorem run_refines (hw : StrictWeak lt) {h : Het α κ} (hh : HetOk lt h) (e : Elem α) (kind : Kind) (cap : Nat) :
+theorem run_refines (hw : StrictWeak lt) {h : Het α κ} (hh : HetOk lt h) (kind : Kind) (cap : Nat) :
     ∀ (ops : List (Op α κ)) (s : St α), Inv lt cap s → opsOk kind ops = true →
-      validHist (kind == .ss) lt h e cap s ops = true →
-      run kind lt h e cap s ops = .ok (Spec.run (kind == .ss) lt h e cap s ops) := by
+      validHist (kind == .ss) lt h cap s ops = true →
+      run kind lt h cap s ops = .ok (Spec.run (kind == .ss) lt h cap s ops) := by
   intro ops
   induction ops with
   | nil => intro s _ _ _; rfl
@@ -574,23 +568,75 @@ theorem run_refines (hw : StrictWeak lt) {h : Het α κ} (hh : HetOk lt h) (e : 
     intro s hinv hok hv
     simp only [opsOk, List.all_cons, Bool.and_eq_true] at hok
     simp only [validHist, Bool.and_eq_true] at hv
-    have hstep := step_refines hw hh e kind hinv op hv.1 hok.1
-    have hinv' := step_inv hw h e (kind == .ss) hinv op hv.1
-    have hrest := ih (Spec.step (kind == .ss) lt h e cap s op).1 hinv' hok.2 hv.2
+    have hstep := step_refines hw hh kind hinv op hv.1 hok.1
+    have hinv' := step_inv hw h (kind == .ss) hinv op hv.1
+    have hrest := ih (Spec.step (kind == .ss) lt h cap s op).1 hinv' hok.2 hv.2
     simp only [run, Spec.run, hstep, ok_bind, hrest]
 
 /-- MAIN THEOREM (invariant over histories): after every valid history both sets are strictly
     ascending w.r.t. the comparator — hence duplicate-free — and within capacity. -/
-theorem inv_history (hw : StrictWeak lt) (h : Het α κ) (e : Elem α) (isSet : Bool) (cap : Nat) :
-    ∀ (ops : List (Op α κ)) (s : St α), Inv lt cap s → validHist isSet lt h e cap s ops = true →
-      Inv lt cap (Spec.run isSet lt h e cap s ops).1 := by
+theorem inv_history (hw : StrictWeak lt) (h : Het α κ) (isSet : Bool) (cap : Nat) :
+    ∀ (ops : List (Op α κ)) (s : St α), Inv lt cap s → validHist isSet lt h cap s ops = true →
+      Inv lt cap (Spec.run isSet lt h cap s ops).1 := by
   intro ops
   induction ops with
   | nil => intro s h _; exact h
   | cons op ops ih =>
     intro s hinv hv
     simp only [validHist, Bool.and_eq_true] at hv
-    exact ih _ (step_inv hw h e isSet hinv op hv.1) hv.2
+    exact ih _ (step_inv hw h isSet hinv op hv.1) hv.2
+
+/-! ### histories extended by erase_if, the relational operators and the size observers (`XOp`) -/
+
+theorem xstep_inv (hw : StrictWeak lt) (h : Het α κ) (e : Elem α) (isSet : Bool) {cap : Nat} {s : St α} (hinv : Inv lt cap s)
+    (op : XOp α κ) (hv : Spec.xvalid cap lt s op = true) : Inv lt cap (Spec.xstep isSet lt h e cap s op).1 := by
+  cases op with
+  | base op => exact step_inv hw h isSet hinv op hv
+  | eraseIf p => exact ⟨spec_eraseIf_inv hinv.1 p, hinv.2⟩
+  | cmp => exact hinv
+  | sizes => exact hinv
+
+/-- one operation of an extended history: the model never errors and produces the spec's state and result -/
+theorem xstep_refines (hw : StrictWeak lt) {h : Het α κ} (hh : HetOk lt h) (e : Elem α) (kind : Kind) {cap : Nat}
+    {s : St α} (hinv : Inv lt cap s) (op : XOp α κ) (hv : Spec.xvalid cap lt s op = true) (hk : xopOk kind op = true) :
+    xstep kind lt h e cap s op = .ok (Spec.xstep (kind == .ss) lt h e cap s op) := by
+  cases op with
+  | base op => simp only [xstep, Spec.xstep, step_refines hw hh kind hinv op hv hk, ok_bind]
+  | eraseIf p => simp only [xstep, Spec.xstep, setEraseIf_eq, ok_bind]
+  | cmp => simp only [xstep, Spec.xstep, relOps_eq, ok_bind]
+  | sizes => simp only [xstep, Spec.xstep, sizes_eq]
+
+/-- MAIN THEOREM, extended: every history in which `erase_if(pred)` (any predicate), the six relational operators against the
+    other live set and `size()/empty()/full()/max_size()` are interleaved with all the operations of `run_refines` runs
+    without a single out-of-vector access or violated precondition and yields the outputs and final state of the
+    std::set specification — any length, capacity, key type, strict weak order, element `==` / `<`, all three set kinds. -/
+theorem xrun_refines (hw : StrictWeak lt) {h : Het α κ} (hh : HetOk lt h) (e : Elem α) (kind : Kind) (cap : Nat) :
+    ∀ (ops : List (XOp α κ)) (s : St α), Inv lt cap s → xopsOk kind ops = true →
+      xvalidHist (kind == .ss) lt h e cap s ops = true →
+      xrun kind lt h e cap s ops = .ok (Spec.xrun (kind == .ss) lt h e cap s ops) := by
+  intro ops
+  induction ops with
+  | nil => intro s _ _ _; rfl
+  | cons op ops ih =>
+    intro s hinv hok hv
+    simp only [xopsOk, List.all_cons, Bool.and_eq_true] at hok
+    simp only [xvalidHist, Bool.and_eq_true] at hv
+    have hstep := xstep_refines hw hh e kind hinv op hv.1 hok.1
+    have hinv' := xstep_inv hw h e (kind == .ss) hinv op hv.1
+    have hrest := ih (Spec.xstep (kind == .ss) lt h e cap s op).1 hinv' hok.2 hv.2
+    simp only [xrun, Spec.xrun, hstep, ok_bind, hrest]
+
+/-- the invariant (strictly ascending, within capacity) over extended histories -/
+theorem xinv_history (hw : StrictWeak lt) (h : Het α κ) (e : Elem α) (isSet : Bool) (cap : Nat) :
+    ∀ (ops : List (XOp α κ)) (s : St α), Inv lt cap s → xvalidHist isSet lt h e cap s ops = true →
+      Inv lt cap (Spec.xrun isSet lt h e cap s ops).1 := by
+  intro ops
+  induction ops with
+  | nil => intro s h _; exact h
+  | cons op ops ih =>
+    intro s hinv hv
+    simp only [xvalidHist, Bool.and_eq_true] at hv
+    exact ih _ (xstep_inv hw h e isSet hinv op hv.1) hv.2
 
 /-- the comparators of the harness satisfy the hypotheses: `less` / `greater` on integers are strict total orders
     (hence strict weak orders); ordering by `k / 2` is a strict weak order that is not total -/
@@ -616,10 +662,18 @@ theorem strictTotal_iff : StrictTotal lt ↔ StrictWeak lt ∧ EquivIsEq lt :=
 example : Inv (fun a b : Nat => decide (a < b)) 3 { cur := [1, 3, 5], other := [2] } :=
   ⟨⟨by unfold Sorted; decide, by decide⟩, ⟨by unfold Sorted; decide, by decide⟩⟩
 example : validHist false (fun a b : Nat => decide (a < b)) ({ ek := fun x k => decide (x < k), ke := fun k x => decide (k < x) } : Het Nat Nat)
+    3 { cur := [1, 3, 5], other := [2] }
+    [.insert 4, .eraseKey 2, .eraseAt 1, .insertHint 0 4, .swap, .eraseRange 0 1, .replace [0, 7], .hlookup .find 7,
+      .riter, .extract] = true := by
+  decide
+-- non-vacuity of `xrun_refines`: an extended history satisfying its hypotheses
+example : xvalidHist false (fun a b : Nat => decide (a < b)) ({ ek := fun x k => decide (x < k), ke := fun k x => decide (k < x) } : Het Nat Nat)
     ({ eq := fun a b => a == b, lt := fun a b => decide (a < b) } : Elem Nat)
     3 { cur := [1, 3, 5], other := [2] }
-    [.insert 4, .eraseKey 2, .eraseAt 1, .insertHint 0 4, .cmp, .swap, .eraseRange 0 1, .replace [0, 7], .hlookup .find 7,
-      .eraseIf (fun v => v % 2 == 1), .sizes, .riter, .extract] = true := by
+    [.base (.insert 4), .cmp, .base .swap, .eraseIf (fun v => v % 2 == 1), .sizes, .base (.eraseRange 0 0), .cmp,
+      .base (.replace [0, 7]), .eraseIf (fun v => v == 7), .base .extract] = true := by
+  decide
+example : xopsOk Kind.fs ([.base (.insert 4), .cmp, .eraseIf (fun v => v == 7), .sizes, .base .extract] : List (XOp Nat Nat)) = true := by
   decide
 example : opsOk Kind.fs ([.insert 4, .swap, .replace [0, 7], .insertHint 1 3, .extract] : List (Op Nat Nat)) = true := by decide
 
